@@ -69,6 +69,7 @@ def configs(draw, tier):
             "fail": draw(st.one_of(st.none(), st.integers(1, 5))), "cancel": list(cancel) if cancel else None,
             "probe": draw(st.lists(st.integers(0, nkeys - 1), max_size=6)),
             "patterns": draw(st.sampled_from(["plain", "plain", "kwlook"])),
+            "eager_fail": draw(st.sampled_from([False, False, True])),
             "choices": draw(st.lists(st.integers(0, 3), max_size=40))}
 
 
@@ -111,7 +112,14 @@ def run_config(case, choices=None, default="rr"):
         finally:
             in_flight[0] -= 1
 
-    cached = a.lru_cache(maxsize=maxsize)(fn)
+    def fn_front(*args, **kwargs):
+        # "any other callable that returns an awaitable": a plain def; the planned failure happens when it is CALLED
+        if case["fail"] == len(invocations) + 1:
+            invocations.append([by_pattern[(args, tuple(kwargs.items()))], epoch[0], "failed"])
+            raise ValueError("planned failure at call time")
+        return fn(*args, **kwargs)
+
+    cached = a.lru_cache(maxsize=maxsize)(fn_front if case.get("eager_fail") else fn)
 
     async def task(i):
         for name, key in case["tasks"][i]:
